@@ -38,6 +38,29 @@ Theorem C10_placed_is_attachment : forall unmarshal r ntypes vs,
   forall b, In b (concat (map bins_of vs)) -> In b (tl (r_buffers r)).
 Proof. exact decode_bins. Qed.
 
+(** The walk over the decoded values (typed Binary cells, slices, structs, maps of ANY element
+    type, placeholder-shaped maps at any depth) never panics: numbers are range-checked before the
+    buffers are indexed, and reflect's SetMapIndex - which panics on an unassignable value - is only
+    reached for a map whose element type is an interface type. *)
+Theorem C10_walk_no_panic : forall buffers s, recon_value buffers s <> Panic.
+Proof. exact recon_value_no_panic. Qed.
+
+(** A placeholder-shaped object inside a map whose element type is not an interface type (e.g.
+    the inner level of map[string]map[string]any) is walked into, never replaced. *)
+Theorem C10_typed_map_entry_not_substituted : forall buffers n fb,
+  recon_value buffers (SMap false [SPhMap n fb]) =
+  rbind (recon_value buffers fb) (fun v => Ok (VSeq [v])).
+Proof. exact recon_typed_entry. Qed.
+
+(** The guard must read the element type of the CONTAINER: a walk whose guard reads the element
+    type of the placeholder-shaped map itself panics on 51-["ev",{"k":{"_placeholder":true,"num":0}}]
+    decoded into map[string]map[string]any, where the real walk returns the value. *)
+Theorem C10_inner_guard_refuted :
+  let bufs := [[91]; [1; 2; 3]]%N in
+  let s := SMap false [SPhMap 0 (SMap true [SOther; SOther])] in
+  recon_value_inner_guard bufs s = Panic /\ recon_value bufs s = Ok (VSeq [VSeq [VOther; VOther]]).
+Proof. exact inner_guard_refuted. Qed.
+
 (** Each call of Add ends in exactly one of three ways - error, need-more, finished packet - and
     leaves a well-formed state: a finished packet leaves the parser idle with remaining = 0 (a
     packet completed by its header alone carries exactly 1 + Attachments buffers); need-more
@@ -124,6 +147,7 @@ Example C10_ex_count_wraps_negative :               (* 518446744073709551615- *)
 Proof. vm_compute. reflexivity. Qed.
 
 Example C10_ex_negative_placeholder :
-  recon_value [[91]; [1; 2; 3]]%N (SSeq [SBin (Some (-5)); SMapPh 0]) = Err
-  /\ recon_value [[91]; [1; 2; 3]]%N (SSeq [SBin (Some 0); SMapPh 0]) = Ok (VSeq [VBin [1;2;3]%N; VBin [1;2;3]%N]).
+  recon_value [[91]; [1; 2; 3]]%N (SSeq [SBin true (Some (-5)); SMap true [SPhMap 0 (SMap true [SOther; SOther])]]) = Err
+  /\ recon_value [[91]; [1; 2; 3]]%N (SSeq [SBin true (Some 0); SMap true [SPhMap 0 (SMap true [SOther; SOther])]])
+     = Ok (VSeq [VBin [1;2;3]%N; VSeq [VBin [1;2;3]%N]]).
 Proof. vm_compute. split; reflexivity. Qed.
